@@ -46,6 +46,7 @@ PutspWords(s) ==
   [k \in 1..(nw + 2) |-> IF k <= nw THEN s[2 * k - 1] + 256 * (IF 2 * k <= Len(s) THEN s[2 * k] ELSE 0)
                           ELSE IF k = nw + 1 /\ Len(s) % 2 = 0 THEN 0 ELSE 16962]
 
+RawPacked == { <<26952, 16640, 16962, 0>>, <<23040, 16705, 0>>, <<26952, 16640, 0>> }
 NoEnvRec == [lockK |-> FALSE, lockD |-> FALSE, ints |-> <<>>, draws |-> <<>>]
 RECURSIVE RunTrap(_, _)
 RunTrap(s, n) ==      \* until control is back in user code after the TRAP (or the step budget is used up)
@@ -61,6 +62,8 @@ Init == /\ phase = "call"
         /\ \E regfill \in {0, 43690}, cc \in {1, 2, 4}, real \in BOOLEAN :
              \/ \E s \in Strings, hi \in BOOLEAN : vect = 34 /\ init = [Mk(34, regfill, cc, real, <<65>>, PutsWords(s, hi)) EXCEPT !.reg[1] = W(STR, 65535)]
              \/ \E s \in Strings : vect = 36 /\ init = [Mk(36, regfill, cc, real, <<>>, PutspWords(s)) EXCEPT !.reg[1] = W(STR, 65535)]
+             \* packed words as a program may leave them: the first zero byte is the LOW byte of a word whose high byte is not zero
+             \/ \E ws \in RawPacked : vect = 36 /\ init = [Mk(36, regfill, cc, real, <<>>, ws) EXCEPT !.reg[1] = W(STR, 65535)]
              \/ \E c \in Bytes \cup {0, 10} , hi \in {0, 171} : vect = 33 /\ init = [Mk(33, regfill, cc, real, <<66>>, <<>>) EXCEPT !.reg[1] = W(c + 256 * hi, 65535)]
              \/ \E q \in { <<a>> : a \in Bytes } \cup { <<a, b>> : a, b \in Bytes } : vect \in {32, 35} /\ init = Mk(vect, regfill, cc, real, q, <<>>)
 Next == phase = "call" /\ phase' = "ret" /\ UNCHANGED <<vect, init>>
